@@ -12,12 +12,12 @@ checks = {
    category="exploration", design_ref="DESIGN.md §3 C10",
    technique="exhaustive enumeration of values and of all ordered value pairs per supported field kind through the real Encode/Decode/DiffPoints/MergePoints (bounded model checking of the implementation against value equality)",
    text="For every supported field kind, every value of a boundary alphabet (thorough: all int slices over {0,1,2} up to length 4, all maps over 4 keys x 3 values) is round-tripped, and every ordered pair (a,b) is pushed through Diff then Merge on the decoded a; a 4-field struct is enumerated as a full product to show fields do not interfere; child lists are decoded for every type mix of up to 3 children. Exhaustive over the alphabets.",
-   note="Value alphabets, not all values; nil and empty slices/maps identified; map key \"\" excluded (the encoding defines it as \"0\"); NaN excluded."),
+   note="Value alphabets, not all values; nil and empty slices/maps identified; map key \"\" excluded (the encoding defines it as \"0\"); NaN excluded. Kinds include maps with pointer elements (map[string]*int, map[string]*string) and a 1000-element slice."),
  "C11": dict(
    category="exploration", design_ref="DESIGN.md §3 C11",
    technique="exhaustive enumeration of point lists (length 1 full product, all ordered pairs and triples over reduced alphabets) through Decode/MergePoints/MergeEdgePoints for every field kind and prior value, with recover() as crash oracle and a differential oracle for undeclared types",
    text="Every point list up to the stated length over an alphabet of hostile keys, values (NaN, Inf, 2^63, 2^64), tombstone counts (negative, odd, even) is decoded into every supported field kind, zero and populated; a panic, a change caused by undeclared types, or a result that differs from the result without the undeclared points is a violation.",
-   note="Alphabets chosen around the shortcuts in decode.go (index parsing, KeyMaxInt, tombstone parity, overflow checks)."),
+   note="Alphabets chosen around the shortcuts in decode.go (index parsing, KeyMaxInt, tombstone parity, overflow checks). Also keys that parse differently under another base (010, 0o10, 0b10, 1_0, 0x10). Part unsettable-targets: the same kinds behind unexported tagged fields and in a struct passed by value (error or no effect, never a panic)."),
  "C12": dict(
    category="exploration", design_ref="DESIGN.md §3 C12",
    technique="exhaustive enumeration: full cross product of per-field boundary alphabets through the real protobuf codecs (round trip), and all short byte strings / wire-aware strings / every truncation and single-byte substitution of valid encodings through every decoder (totality)",
@@ -37,7 +37,7 @@ checks = {
    category="exploration", design_ref="DESIGN.md §3 C18",
    technique="exhaustive enumeration of request PDUs (all 256 function codes x all data strings up to length 4/6 over a boundary byte alphabet; structured requests around every protocol limit) x 7 register maps through the real PDU.ProcessRequest on the real Regs, against a reference Modbus server written from the specification tables; write-then-read pairs",
    text="Every enumerated request is executed on a fresh real register file under recover() and a hang watchdog; the answer must be the byte-exact normal response of the reference server, or an exception of an applicable code, and registers must be as the reference says (unchanged after an exception to a read or single write).",
-   note="Requests with trailing bytes or an inconsistent byte-count field are only checked for safety. Go error accepted only for requests shorter than the fixed header. Part server-frames: what Server.Listen does per packet (transport Decode, unit check, ProcessRequest, Encode) for arbitrary TCP and RTU bytes."),
+   note="Requests with trailing bytes or an inconsistent byte-count field are only checked for safety. Go error accepted only for requests shorter than the fixed header. Part server-frames: what Server.Listen does per packet (transport Decode, unit check, ProcessRequest, Encode) for arbitrary TCP and RTU bytes. Register maps include one built by overlapping AddReg(address, count) calls."),
  "C19": dict(
    category="exploration", design_ref="DESIGN.md §3 C19",
    technique="exhaustive enumeration of client API calls (every count 1..2000 / 1..125 at an address alphabet, single writes + read back, 65 537 consecutive TCP transactions) on the real Client <-> real Server.Listen over in-memory RTU and TCP transports, against the reference register file; every single-byte substitution/truncation/transaction-id mutation of responses; all 2^32 values through the converters (thorough); the RTU client behind the real respreader with the response handed out in pieces of at most k bytes per port read, each at once or 1 ms late (all patterns with at most one departure)",
@@ -47,17 +47,17 @@ checks = {
    category="model_checking", design_ref="DESIGN.md §3 C01",
    technique="stateless model checking of the real store: exhaustive DFS over choice sequences (point lists x all permutations x all batch compositions x one re-delivery) executed on a fresh real SQLite store over a deterministic in-process bus, reference model newest-timestamp-wins checked after every delivery",
    text="Every delivery schedule of every point list up to 3 (thorough 4) points over identities built around the shortcuts in the code (key \"\" vs \"0\", type+key concatenation collisions), for node points and edge points, is executed through the real NATS handlers; the read-back must hold exactly the newest delivered point per identity with all fields.",
-   note="Bus = in-process stand-in for nats.go (inline mode: one global FIFO, a schedule real NATS can produce). Alphabets, not all strings/floats. 16 single-threaded shard processes. Parts *-same-payload: points of one identity that differ only in their time."),
+   note="Bus = in-process stand-in for nats.go (inline mode: one global FIFO, a schedule real NATS can produce). Alphabets, not all strings/floats. 16 single-threaded shard processes. Parts *-same-payload: points of one identity that differ only in their time. Parts *-empty-type-n3: identities whose type is the empty string next to typed ones with the same key. Timestamps include both ends of the 64-bit nanosecond range."),
  "C03": dict(
    category="model_checking", design_ref="DESIGN.md §3 C03",
    technique="explicit-state search over write histories on the real store (state = store content + remaining depth, revisits pruned), with an independent Merkle recomputation, a cross-history differential (equal content => equal hashes) and storeMaint-changes-nothing evaluated in every state",
    text="From 4 seed states (empty, diamond, deleted mirror, detached populated subtree) all histories of 3/2 (thorough 4/3) operations over 44 operations (points new/newer/stale/duplicate, tombstone set/clear, edge points, on the 6 forward edges among root,A,B,C) are executed; after every operation every edge hash is recomputed from the replies by the harness's own CRC/XOR code.",
-   note="Cyclic edges excluded (C05). Hash definition taken from docs/ref/sync.md and the property text. The operation alphabet includes equal-timestamp rewrites, older edge points and rewrites with a 300-byte text differing in the last byte."),
+   note="Cyclic edges excluded (C05). Hash definition taken from docs/ref/sync.md and the property text. The operation alphabet includes equal-timestamp rewrites, older edge points and rewrites with a 300-byte text differing in the last byte. Also: the value -0.0, one batch with both spellings of key zero (node and edge points)."),
  "C05": dict(
    category="model_checking", design_ref="DESIGN.md §3 C05",
    technique="explicit-state search over graph states of the real store; in every state the complete menu of must-be-refused requests (self edge, root tombstone, missing node type, every cycle-closing edge through live or deleted edges, NaN at every batch position incl. NaN shadowed by a same-identity point, root tombstones of value 1, 3, 2, 0.5, -1, -2) is executed and followed by a full snapshot comparison and a spy on up.>; crashes/hangs are isolated by re-running the sequence 5x in separate processes",
    text="All graph states reachable by 2 (thorough 3) legal writes over the 9 directed edges among root,A,B,C (live or deleted) and node points; every refused request must answer with an error, leave the complete observable state (points, hashes) unchanged, publish nothing on up.>, and the instance must answer a follow-up write and read.",
-   note="Reference graph decides refused/accepted (cycle = parent==child or child is an ancestor of parent through any edge)."),
+   note="Reference graph decides refused/accepted (cycle = parent==child or child is an ancestor of parent through any edge). Refused menu also: 150-point batches with NaN at positions 64 / 100 / 149, NaN in points with a tombstone count, NaN shadowed inside the batch, root tombstones with other values, client.MoveNode / MirrorNode below a descendant."),
  "C06": dict(
    category="model_checking", design_ref="DESIGN.md §3 C06",
    technique="exhaustive enumeration of graph configurations (every DAG shape over root+3 nodes with each edge absent/live/tombstoned; root+4 live-only in quick, full in thorough) on the real store; for every node and edge every kind of write is executed and the set of up.* subjects seen by a bus spy is compared with graph reachability computed by a reference model",
@@ -67,7 +67,7 @@ checks = {
    category="model_checking", design_ref="DESIGN.md §3 C09",
    technique="exhaustive cross product of HTTP methods x node routes x Authorization header kinds x bodies through the real api handler (ServeHTTP) with a bus spy and snapshot comparison; explicit-state search over user-placement histories on the real store for login/listing; real nats-server + real nats.go clients for the bus token",
    text="Every request with an invalid header must answer 401, cause zero bus messages and leave the store unchanged; every valid header must not answer 401. In every reachable placement state (move, mirror, delete, re-add, deleted groups; depth 5/6) a token is issued iff the user reaches the root through non-deleted edges, the issued token validates, wrong/empty credentials fail, and the node listing stays inside the subtrees of live placements. Bus: connects iff the token is exact.",
-   note="JWT variants (HS384/512, expired, missing claims) are crafted with the instance key read from the database file by the harness. /v1/auth excluded from the 401 oracle. Header alphabet incl. every combination of {other key, tampered, expired} x iat/nbf {absent, past, future}; login with 15 near-miss credentials."),
+   note="JWT variants (HS384/512, expired, missing claims) are crafted with the instance key read from the database file by the harness. /v1/auth excluded from the 401 oracle. Header alphabet incl. every combination of {other key, tampered, expired} x iat/nbf {absent, past, future}; login with 15 near-miss credentials. Part http-database-without-key: store files with a root and no signing key (NULL, empty blob, column dropped) reopened twice; forged tokens (empty key, zero byte, lost key) must be refused, issued tokens survive the next restart."),
  "C15": dict(
    category="model_checking", design_ref="DESIGN.md §3 C15",
    technique="exhaustive enumeration of (special point content x tree shape x position x import target x preserveIDs) through the real client.ExportNodes / ImportNodes on real stores (two instances for cross-instance import), differential oracle: imported subtree vs exported subtree under one id bijection",
@@ -92,17 +92,17 @@ checks = {
    category="model_checking", design_ref="DESIGN.md §3 C08",
    technique="same controlled-scheduler rig as C07: exhaustive enumeration of batch sequences (author x target x shape) with the Points/EdgePoints callbacks of the instrumented client as observation, plus a deviation-bounded exploration of delivery orders",
    text="All sequences of 2 (thorough 3) batches over 23 (4 authors x 4 targets, two-point batches, an edge-point batch); foreign changes in the subtree are told exactly once, in acceptance order, with identical points; own changes never; folding what was told (plus own writes) into the start configuration equals the store's node.",
-   note="Batches with empty origin aimed at a descendant are unclassified by the statement and unconstrained. Further parts: grand-child deleted / written / restored (depth 4), edge points on the child and grand-child edges, batches the store refuses (NaN) must not be told."),
+   note="Batches with empty origin aimed at a descendant are unclassified by the statement and unconstrained. Further parts: grand-child deleted / written / restored (depth 4), edge points on the child and grand-child edges, batches the store refuses (NaN) must not be told. Batches that carry one identity twice with one timestamp (store and folding client must agree)."),
  "C02": dict(
    category="model_checking", design_ref="DESIGN.md §2.3, §3 C02",
    technique="stateless model checking with the controlled scheduler over TWO buses: two real stores (downstream, upstream) linked by the real client.SyncClient in one testing/synctest bubble per execution; exhaustive enumeration of operation histories (writes, creations, deletions, undeletions on either side, outages, periods) and, deviation-bounded, delivery orders; differential oracle downstream subtree = upstream subtree plus newest-accepted-write reference",
    text="After an initial catch-up, all histories of 3 (thorough 4) operations over 24 (point / new identity / edge point / mirror-placement edge point / creation / deletion / undeletion on either side, sync disabled / enabled, link lost abruptly / restored, upstream restarted, upstream stopped with its clients reconnecting before its store answers / store back, a period passes) are run, then the link is brought up and 5 sync periods pass; the device subtrees read through nodes.* (deleted included) must be identical in node set, types, every point (all fields but origin) and edge points, and hold the newest accepted write per identity.",
-   note="Outages are modelled four ways: sync disabled/re-enabled (clean disconnect), abrupt loss of the sync client's upstream connection (queued deliveries lost, publishes buffered, handlers called in order), upstream restart, upstream bus reachable while its store is away. Known findings: tombstones and writes on or below deleted nodes made during an outage (4 keys)."),
+   note="Outages are modelled four ways: sync disabled/re-enabled (clean disconnect), abrupt loss of the sync client's upstream connection (queued deliveries lost, publishes buffered, handlers called in order), upstream restart, upstream bus reachable while its store is away. Known findings: tombstones and writes on or below deleted nodes made during an outage (4 keys). Operations also: sync settings saved again while connected, a point marked removed (point-level tombstone) on a shared identity. An operation issued before the sync client holds its upstream subscription again counts as an outage operation."),
  "C20": dict(
    category="model_checking", design_ref="DESIGN.md §2.3, §2.4, §3 C20",
    technique="stateless model checking with a preemption-bounded controlled scheduler on the real store: scheduling points are every bus delivery and, through an import-rewriting overlay of store/sqlite.go (database/sql -> gated wrapper, sync.Mutex -> gated channel mutex), every SQL operation and every writeLock.Lock; concurrent client threads (node writer, edge writer, reader, verify, maintenance, shutdown) are explored for all schedules with at most 2 (thorough 3) preemptions inside testing/synctest bubbles",
    text="For all triples of client threads and all schedules within the preemption bound: every request is answered (a schedule where nothing is enabled for 31 virtual seconds is a deadlock), a read issued after an acknowledgement sees the write, a reader's successive reads never go back, the final content is the newest acknowledged write per identity with consistent hashes and nothing for storeMaint to repair; with a concurrent Store.Stop at every point: Stop returns, the file reopens with the same root and all acknowledged writes.",
-   note="The data-race clause cannot be seen by a cooperative scheduler; it is covered by a separate free-running `go test -race` pass of the same thread bodies (sampling, reported in the evidence as such). Interleavings between two scheduling points are not enumerated. Further parts: threads X / Y (requests that must be refused; each must get the error text it gets when sent alone), a scheduling point where a reply leaves the store, Store.Stop at 4 positions around the start of Run, and the server-shutdown part (server.Server as cmd/siot assembles it, real nats.go, 24 scenarios in child processes, real time)."),
+   note="The data-race clause cannot be seen by a cooperative scheduler; it is covered by a separate free-running `go test -race` pass of the same thread bodies (sampling, reported in the evidence as such). Interleavings between two scheduling points are not enumerated. Further parts: threads X / Y (requests that must be refused; each must get the error text it gets when sent alone), a scheduling point where a reply leaves the store, Store.Stop at 4 positions around the start of Run, and the server-shutdown part (server.Server as cmd/siot assembles it, real nats.go, 24 scenarios in child processes, real time). Oracle added in round 12: a request whose delivery to a store handler was granted must be answered (grants vs. replies counted by the scheduler), also around Store.Stop (part shutdown-single-client-p2, 2 preemptions). Violations found by a shard are re-run in a fresh process before they are reported."),
 }
 pending_reason = "check not built yet in this round (planned in DESIGN.md §3); not claimed until its harness exists"
 m = {
